@@ -497,6 +497,17 @@ class SymEval:
             if self.same(a, b):
                 return a
             cond = self.ev(e["c"][0])
+            # a condition over constants (e.g. a literal argument of an opened helper compared with a literal) selects its branch
+            try:
+                cv = sp.sympify(cond)
+                if cv is sp.true or cv is sp.false:
+                    return a if cv is sp.true else b
+                if isinstance(cv, (sp.Eq, sp.Ne, sp.StrictLessThan, sp.LessThan, sp.StrictGreaterThan, sp.GreaterThan)) and not cv.free_symbols:
+                    dv = cv.doit()
+                    if dv is sp.true or dv is sp.false:
+                        return a if dv is sp.true else b
+            except (TypeError, sp.SympifyError):
+                pass
             if isinstance(a, sp.Basic) and isinstance(b, sp.Basic):
                 return self.atom_fn("ite", [cond, a, b], e.get("t", "double"))
             raise Decline("conditional with different record branches")
